@@ -50,4 +50,17 @@ CHECKS = {
         "case = one adversarial-asynchronous world with a non-validator observer and (1/3) a validator carrying the watch-only flag; "
         "non-trivial = the watch-only index was primary of some (height, view) the node entered; distinct = hash of the choice stream",
         1500, 40000),
+    "C08": rapid("TestC08",
+        "case = one fault-free timed world (N 1..7, 3-6 heights, start at genesis in 1/4 of the runs, anti-MEV off/on/switching, latency <= TimePerBlock/20 drawn per message, drawn order inside an instant, 0/10/40% duplicates, Reset lagging by up to two latencies); "
+        "non-trivial = the run completed and contained at least one early (cached) delivery and one duplicate; distinct = hash of the choice stream",
+        400, 10000, assumptions=ASYNC_ASSUME + ["synchrony: latency and Reset lag are far below TimePerBlock; timers fire exactly at their deadline"]),
+    "C09": rapid("TestC09",
+        "case = one timed world (N 4..7) of a drawn fault family: (i) <=F validators silent from the start, preferably the primaries of the first views; (ii) a drawn subset cut off at a drawn instant for up to 30 block times, then healed; (iii) crash + amnesia restart of one validator (preferably the current primary); "
+        "after the last fault latency <= TimePerBlock/20 and every node runs ledger block-sync with a drawn period; horizon = last fault + heights*TimePerBlock*2^(highest view then + F + 4); hitting the event budget is inconclusive, never a violation; "
+        "non-trivial = the run completed and had a decision in view>0, a ledger sync or a restart; distinct = hash of the choice stream",
+        300, 8000, assumptions=ASYNC_ASSUME + ["'eventually' is replaced by the stated virtual-time horizon", "applications fetch missing blocks from reachable peers (the contract's 'received by other means')"]),
+    "C16": rapid("TestC16",
+        "case = one fault-free timed world with MaxTimePerBlock/TimePerBlock in {1,1.5,2,3,8} (or off), identical pools, per height a transaction arriving never / before the minimum / during the extended wait (kept 4 latencies away from the 2*TimePerBlock race); "
+        "non-trivial = some round entered the extended wait; distinct = hash of the choice stream",
+        400, 10000, assumptions=ASYNC_ASSUME + ["latency = TimePerBlock/50; gaps are judged with a tolerance of two latencies"]),
 }
